@@ -302,4 +302,98 @@ inline json reader_dump(const std::string& bytes) {
     return out;
 }
 
+
+// ---- raw blocks (built directly through CdnsBlock::add_*; C02) -------------------------------
+#define VR_SIG_FIELDS(X) \
+    X(server_address_index, index_t) X(server_port, uint16_t) X(qr_transport_flags, QueryResponseTransportFlagsMask) \
+    X(qr_type, QueryResponseTypeValues) X(qr_sig_flags, QueryResponseFlagsMask) X(query_opcode, uint8_t) \
+    X(qr_dns_flags, DNSFlagsMask) X(query_rcode, uint16_t) X(query_classtype_index, index_t) X(query_qdcount, uint16_t) \
+    X(query_ancount, uint32_t) X(query_nscount, uint16_t) X(query_arcount, uint16_t) X(query_edns_version, uint8_t) \
+    X(query_udp_size, uint16_t) X(query_opt_rdata_index, index_t) X(response_rcode, uint16_t)
+inline QueryResponseSignature raw_sig_in(const json& j) {
+    QueryResponseSignature s;
+#define X(f, T) if (j.contains(#f)) s.f = static_cast<T>(vh::u64_from_nat(j[#f]));
+    VR_SIG_FIELDS(X)
+#undef X
+    return s;
+}
+inline QueryResponseExtended raw_qre_in(const json& j) {
+    QueryResponseExtended e;
+    if (j.contains("question_index")) e.question_index = static_cast<index_t>(vh::u64_from_nat(j["question_index"]));
+    if (j.contains("answer_index")) e.answer_index = static_cast<index_t>(vh::u64_from_nat(j["answer_index"]));
+    if (j.contains("authority_index")) e.authority_index = static_cast<index_t>(vh::u64_from_nat(j["authority_index"]));
+    if (j.contains("additional_index")) e.additional_index = static_cast<index_t>(vh::u64_from_nat(j["additional_index"]));
+    return e;
+}
+inline QueryResponse raw_qr_in(const json& j) {
+    QueryResponse q;
+    if (j.contains("time_offset")) q.time_offset = ts_in(j["time_offset"]);
+    if (j.contains("client_address_index")) q.client_address_index = static_cast<index_t>(vh::u64_from_nat(j["client_address_index"]));
+    if (j.contains("client_port")) q.client_port = static_cast<uint16_t>(vh::u64_from_nat(j["client_port"]));
+    if (j.contains("transaction_id")) q.transaction_id = static_cast<uint16_t>(vh::u64_from_nat(j["transaction_id"]));
+    if (j.contains("qr_signature_index")) q.qr_signature_index = static_cast<index_t>(vh::u64_from_nat(j["qr_signature_index"]));
+    if (j.contains("client_hoplimit")) q.client_hoplimit = static_cast<uint8_t>(vh::u64_from_nat(j["client_hoplimit"]));
+    if (j.contains("response_delay")) q.response_delay = snum_in(j["response_delay"]);
+    if (j.contains("query_name_index")) q.query_name_index = static_cast<index_t>(vh::u64_from_nat(j["query_name_index"]));
+    if (j.contains("query_size")) q.query_size = vh::u64_from_nat(j["query_size"]);
+    if (j.contains("response_size")) q.response_size = vh::u64_from_nat(j["response_size"]);
+    if (j.contains("rpd")) {
+        ResponseProcessingData r;
+        if (j["rpd"].contains("bailiwick_index")) r.bailiwick_index = static_cast<index_t>(vh::u64_from_nat(j["rpd"]["bailiwick_index"]));
+        if (j["rpd"].contains("processing_flags")) r.processing_flags = static_cast<ResponseProcessingFlagsMask>(vh::u64_from_nat(j["rpd"]["processing_flags"]));
+        q.response_processing_data = r;
+    }
+    if (j.contains("qe")) q.query_extended = raw_qre_in(j["qe"]);
+    if (j.contains("re")) q.response_extended = raw_qre_in(j["re"]);
+    if (j.contains("asn")) q.asn = vh::bytes_from_json(j["asn"]);
+    if (j.contains("country_code")) q.country_code = vh::bytes_from_json(j["country_code"]);
+    if (j.contains("round_trip_time")) q.round_trip_time = snum_in(j["round_trip_time"]);
+    return q;
+}
+// builds the block; table entries are added in order (the generator keeps them distinct, so index = position)
+inline void raw_block_fill(CdnsBlock& b, const json& d) {
+    const json& t = d["tables"];
+    if (t.contains("ip")) for (auto& x : t["ip"]) b.add_ip_address(vh::bytes_from_json(x));
+    if (t.contains("ct")) for (auto& x : t["ct"]) b.add_classtype(ct_in(x));
+    if (t.contains("name")) for (auto& x : t["name"]) b.add_name_rdata(vh::bytes_from_json(x));
+    if (t.contains("sig")) for (auto& x : t["sig"]) b.add_qr_signature(raw_sig_in(x));
+    auto idxlist = [](const json& l) { std::vector<index_t> v; for (auto& i : l) v.push_back(static_cast<index_t>(vh::u64_from_nat(i))); return v; };
+    if (t.contains("qrr")) for (auto& x : t["qrr"]) { Question q; q.name_index = static_cast<index_t>(vh::u64_from_nat(x["name_index"])); q.classtype_index = static_cast<index_t>(vh::u64_from_nat(x["classtype_index"])); b.add_question(q); }
+    if (t.contains("qlist")) for (auto& x : t["qlist"]) b.add_question_list(idxlist(x));
+    if (t.contains("rr")) for (auto& x : t["rr"]) {
+        RR r; r.name_index = static_cast<index_t>(vh::u64_from_nat(x["name_index"])); r.classtype_index = static_cast<index_t>(vh::u64_from_nat(x["classtype_index"]));
+        if (x.contains("ttl")) r.ttl = static_cast<uint32_t>(vh::u64_from_nat(x["ttl"]));
+        if (x.contains("rdata_index")) r.rdata_index = static_cast<index_t>(vh::u64_from_nat(x["rdata_index"]));
+        b.add_rr(r);
+    }
+    if (t.contains("rrlist")) for (auto& x : t["rrlist"]) b.add_rr_list(idxlist(x));
+    if (t.contains("mmd")) for (auto& x : t["mmd"]) {
+        MalformedMessageData m;
+        if (x.contains("server_address_index")) m.server_address_index = static_cast<index_t>(vh::u64_from_nat(x["server_address_index"]));
+        if (x.contains("server_port")) m.server_port = static_cast<uint16_t>(vh::u64_from_nat(x["server_port"]));
+        if (x.contains("mm_transport_flags")) m.mm_transport_flags = static_cast<QueryResponseTransportFlagsMask>(vh::u64_from_nat(x["mm_transport_flags"]));
+        if (x.contains("mm_payload")) m.mm_payload = vh::bytes_from_json(x["mm_payload"]);
+        b.add_malformed_message_data(m);
+    }
+    boost::optional<BlockStatistics> st;
+    if (d.contains("stats")) st = stats_in(d["stats"]);
+    if (d.contains("qrs")) for (auto& x : d["qrs"]) b.add_question_response_record(raw_qr_in(x), st);
+    if (d.contains("aecs")) for (auto& x : d["aecs"]) {
+        AddressEventCount a;
+        a.ae_type = static_cast<AddressEventTypeValues>(vh::u64_from_nat(x["ae_type"]));
+        if (x.contains("ae_code")) a.ae_code = static_cast<uint8_t>(vh::u64_from_nat(x["ae_code"]));
+        if (x.contains("ae_transport_flags")) a.ae_transport_flags = static_cast<QueryResponseTransportFlagsMask>(vh::u64_from_nat(x["ae_transport_flags"]));
+        a.ae_address_index = static_cast<index_t>(vh::u64_from_nat(x["ae_address_index"]));
+        b.add_address_event_count(a, st);
+    }
+    if (d.contains("mms")) for (auto& x : d["mms"]) {
+        MalformedMessage m;
+        if (x.contains("time_offset")) m.time_offset = ts_in(x["time_offset"]);
+        if (x.contains("client_address_index")) m.client_address_index = static_cast<index_t>(vh::u64_from_nat(x["client_address_index"]));
+        if (x.contains("client_port")) m.client_port = static_cast<uint16_t>(vh::u64_from_nat(x["client_port"]));
+        if (x.contains("message_data_index")) m.message_data_index = static_cast<index_t>(vh::u64_from_nat(x["message_data_index"]));
+        b.add_malformed_message(m, st);
+    }
+}
+
 } // namespace vr
